@@ -402,10 +402,14 @@ def c16_case(args):
         finish_engine(res, eng)
 
     for ii, inst in enumerate(instances(schema, tier)):
+        if _red(res):
+            break
         canon = refspec.canon_bytes(schema, T, inst.value)
         data = _as_symbytes(canon)
         # (a) every strict prefix of a valid encoding must be rejected
         for k in range(len(data)):
+            if _red(res):
+                break
             def mk(m, wb, k=k):
                 cb = [m.eval(b, model_completion=True).as_long() for b in canon][:k]
                 return _replay_payload("serde_truncated", schema, inst, m, data=cb, work_bound=wb,
@@ -449,6 +453,8 @@ def c16_case(args):
             nobl["announce"] += 1
     # (c) arbitrary buffers: whatever decode returns must fit in the bytes that were there, with bounded work
     for n in ((0, 1, 2, 3, 5, 6) if tier == "quick" else (0, 1, 2, 3, 4, 5, 6, 7, 8, 9, 12)):
+        if _red(res):
+            break
         raw = [z3.BitVec(f"b{i}", 8) for i in range(n)]
         data = _as_symbytes(raw)
         eng = Engine(timeout_ms=tmo, max_paths=3000)
